@@ -466,6 +466,8 @@ def wl_env2d(rng, rec, tier):
         kw["equalize_norms"] = gen.choice(rng, [True, 1.0])
     if what in ("x", "y") and rng.random() < 0.25:
         kw["dense"] = True
+    elif rng.random() < 0.3:
+        kw["mode"] = gen.choice(rng, ["mps", "full-bond", "projector2d"])
     if what == "x":
         gen.attempt(tn.compute_x_environments, **kw)
     elif what == "y":
